@@ -7,7 +7,8 @@ import os, subprocess, json, hashlib, re
 
 def describe(line, verdict, case_json):
     pos = {0: "an argument outside the routine's footprint was modified", 1: "results differ between two calls on equal arguments (after unrelated calls)",
-           2: "concurrent results differ from the sequential one, or a shared input was modified", 3: "a documented in-place operation changed nothing", -1: "ok"}
+           2: "concurrent results differ from the sequential one, or a shared input was modified", 3: "a documented in-place operation changed nothing",
+           4: "an exported function/method taking a slice, Sample, graph or distribution is exercised by no entry of the harness table (the property quantifies over every such function; it is neither modelled nor run)", -1: "ok"}
     n = line[2]
     return dict(routine=line[1], nargs=n, mutated=line[3:3 + n], deterministic=line[3 + n], concurrent_ok=line[4 + n],
                 meaning=pos.get(verdict[2], "?"), case=json.loads(case_json))
@@ -21,6 +22,7 @@ def extra(ctx):
         raise SystemExit("[check] MACHINERY FAILURE: -race build failed: " + r.stdout + r.stderr)
     racebin = os.path.join(root, r.stdout.strip().splitlines()[-1] + "-race")
     env["GORACE"] = "halt_on_error=0 exitcode=66"
+    env["C20_CONC_FIRST"] = "1"   # first use of every routine in the -race process is concurrent (lazy initialisation races)
     env["C20_NOFRESH"] = "1"      # the fresh-process reference belongs to the plain run; a -race child per case would cost a second each
     try:
         p = subprocess.run([racebin, "gen", "C20", ctx["tier"], str(ctx["seed"])], env=env, capture_output=True, text=True,
